@@ -16,6 +16,7 @@ warnings.simplefilter("ignore", DeprecationWarning)
 TASK_BOUND = 32  # absolute ceiling for any single run; independence from the number of cycles is checked separately (long clause)
 LATENCIES = [0.0, 0.5, 3.0]
 LIFETIMES = [None, 0.0, 0.3, 2.0, 7.0, 30.0]
+SLOW_CANCEL = ["ok~1.5", "fail~0.7", "ok~40"]  # an attempt that, when cancelled, needs that long to unwind (close() must not wait for it)
 EOF_MODES = ["eof:0.05", "eof:1.5", "eof:-3"]  # the peer half-closes: eof_received() first, connection_lost() 0.05 s / 1.5 s / 3 loop iterations later
 LIFETIMES_FAULTY = [-0.3, -2.0]  # negative: the connection is lost after |t| s and closing the dead transport raises OSError
 
@@ -148,7 +149,7 @@ def scenario_oracle(case) -> Info:
         runs += 1
         classes.add("close-inside-sleep-or-latency")
         nontrivial = True
-    classes.add(f"fails:{min(3, sum(1 for s in script if s[0] == 'fail'))}")
+    classes.add(f"fails:{min(3, sum(1 for s in script if str(s[0]).startswith('fail')))}")
     classes.add(f"losses:{min(3, facts.get('losses', 0))}")
     return Info(nontrivial=nontrivial, classes=tuple(sorted(classes)), sample={"script": [list(s) for s in script], "runs": runs, "iterations": n_iter}, counts={"executions(runs of connect_loop)": runs})
 
@@ -158,6 +159,7 @@ step_st = st.one_of(
     st.tuples(st.just("ok"), st.sampled_from(LATENCIES), st.sampled_from(LIFETIMES[1:])),
     st.tuples(st.just("ok"), st.sampled_from(LATENCIES), st.sampled_from(LIFETIMES[1:] + LIFETIMES_FAULTY)),
     st.tuples(st.just("ok"), st.sampled_from(LATENCIES), st.sampled_from(LIFETIMES[1:]), st.sampled_from(EOF_MODES)),
+    st.tuples(st.sampled_from(SLOW_CANCEL), st.sampled_from(LATENCIES[1:]), st.sampled_from(LIFETIMES[1:])),
 )
 scenario_st = st.tuples(st.lists(step_st, min_size=0, max_size=5), st.lists(st.integers(0, 999), max_size=3))
 
@@ -183,6 +185,8 @@ _GRID_CACHE = {}
 
 
 _EOF_GRID = [list(c) for n in range(1, 4) for c in itertools.product(_STEPS_EOF, repeat=n) if any(len(x) > 3 for x in c)]
+_STEPS_SLOW = [("fail", 0.0, None), ("ok~1.5", 3.0, 2.0), ("fail~0.7", 0.5, None), ("ok", 0.0, 0.3)]
+_EOF_GRID += [list(c) for n in range(1, 4) for c in itertools.product(_STEPS_SLOW, repeat=n) if any("~" in x[0] for x in c)]
 
 
 def eof_case(i, tier):
@@ -265,7 +269,7 @@ def build() -> Check:
         ],
         clauses=[
             HypClause("scenarios", scenario_st, scenario_oracle, quick=1600, thorough=20000),
-            EnumClause("eof-grid", size=lambda tier: len(_EOF_GRID), case_at=eof_case, oracle=scenario_oracle, doc="all scripts of length <=3 over 5 steps with at least one connection that ends by a half-close (eof_received() first, connection_lost() 0.05 s / 1.5 s / 3 loop iterations later) x every injection point"),
+            EnumClause("eof-grid", size=lambda tier: len(_EOF_GRID), case_at=eof_case, oracle=scenario_oracle, doc="all scripts of length <=3 over 5 steps with at least one connection that ends by a half-close (eof_received() first, connection_lost() 0.05 s / 1.5 s / 3 loop iterations later) x every injection point; likewise all scripts of length <=3 over 4 steps with at least one attempt that needs 0.7 / 1.5 s to unwind when cancelled"),
             EnumClause("grid", size=grid_size, case_at=grid_case, oracle=scenario_oracle, doc="all scripts of length <=3 x every injection point"),
             EnumClause("long", size=lambda tier: len(long_cases(tier)), case_at=lambda i, tier: long_cases(tier)[i], oracle=long_oracle, doc="task bound over many reconnect cycles", exhaustive=False),
         ],
